@@ -10,7 +10,9 @@ the current sources, run on the histories of `gviews` (same state, same referenc
                    reference structure), its position is what the generated `path_iter` produced
 * `gn:v:k:c`       `path.get_node(k)[c]`
 * `bdt:v:c`        `Branch(path.attach, path.idx).detach().attach[c]`
-* `cdt:o:j:c`      `tree.get_compartments()[j].detach().attach[c]` -/
+* `cdt:o:j:c`      `tree.get_compartments()[j].detach().attach[c]`
+* `tit:o:c`        `[n[c] for n in tree]`
+* `titw:o:i:c:x`   `hs = list(tree); old = tree[i][c]; tree[i][c] = x; out = [h[c] for h in hs]; tree[i][c] = old` -/
 namespace AlgoRun
 open Gen.Algo
 
@@ -21,6 +23,8 @@ inductive HOp where
   | getNode (v : Nat) (k : Int) (c : String)
   | branchDetach (v : Nat) (c : String)
   | compDetach (o : Nat) (j : Nat) (c : String)
+  | treeIter (o : Nat) (c : String)
+  | treeIterLive (o : Nat) (i : Int) (c : String) (x : Int)
 
 def hstep (s : VState) : HOp → VState × Views.Out
   | .g op => gstep s op
@@ -40,6 +44,12 @@ def hstep (s : VState) : HOp → VState × Views.Out
     outOf s (s.objs[o]?.bind fun ob => (tree_get_compartments ob).bind fun cs => cs[j]?.bind fun cp =>
       (tcomp_detach cp).bind fun d => Py.Dict.get? d.attach.ndata c) fun l => (s, .vals l)
 
+  | .treeIter o c => outOf s (s.objs[o]?.bind fun ob => (tree_iter ob).bind fun hs => hs.mapM fun h => tnode_getitem h c) fun l => (s, .vals l)
+  | .treeIterLive o i c x =>
+    outOf s (s.objs[o]?.bind fun ob => (tree_iter ob).bind fun hs =>
+      ((tree_getitem_int ob i).bind fun n => tnode_setitem n c x).bind fun r =>
+        hs.mapM fun h => tnode_getitem { h with attach := r.1.attach } c) fun l => (s, .vals l)
+
 def hrun (s : VState) (ops : List HOp) : List Views.Out :=
   (ops.foldl (fun (acc : VState × List Views.Out) op => let r := hstep acc.1 op; (r.1, acc.2 ++ [r.2])) (s, [])).2
 
@@ -49,10 +59,12 @@ def parseHOp (t : String) : Option HOp :=
   | ["itw", v, i, c, x] => do some (.iterLive (← v.toNat?) (← i.toInt?) c (← x.toInt?))
   | ["gn", v, k, c] => do some (.getNode (← v.toNat?) (← k.toInt?) c)
   | ["bdt", v, c] => do some (.branchDetach (← v.toNat?) c)
+  | ["tit", o, c] => do some (.treeIter (← o.toNat?) c)
+  | ["titw", o, i, c, x] => do some (.treeIterLive (← o.toNat?) (← i.toInt?) c (← x.toInt?))
   | ["cdt", o, j, c] => do some (.compDetach (← o.toNat?) (← j.toNat?) c)
   | _ => (parseGOp t).map .g
 
-/-- `ghelpers id= pid= type= x= y= z= r= ops=op;op;…` → one output per op (the protocol of `gviews`, plus `it` / `itw` / `gn` / `bdt` / `cdt`) -/
+/-- `ghelpers id= pid= type= x= y= z= r= ops=op;op;…` → one output per op (the protocol of `gviews`, plus `it` / `itw` / `gn` / `bdt` / `cdt` / `tit` / `titw`) -/
 def handleHelpers (args : List String) : String :=
   let g := fun k => Proto.argInts args k
   match g "id", g "pid", g "type", g "x", g "y", g "z", g "r", Proto.arg args "ops" with
